@@ -510,4 +510,12 @@ def r20_8(run):
     run.floor(5)
 
 
-RULES = [("R20.1", r20_1), ("R20.2", r20_2), ("R20.3", r20_3), ("R20.4", r20_4), ("R20.5", r20_5), ("R20.6", r20_6), ("R20.7", r20_7), ("R20.8", r20_8)]
+def r20_9(run):
+    """what the coupled time series reports per step: every member net's output writer gets the step's multinet-wide verdicts
+    unchanged (shared with C13 R13.5) -- a per-net flag is only refreshed by a successful run, so a step in which one member diverged
+    would be logged as converged by the others"""
+    from .c13 import r13_5
+    r13_5(run)
+
+
+RULES = [("R20.1", r20_1), ("R20.2", r20_2), ("R20.3", r20_3), ("R20.4", r20_4), ("R20.5", r20_5), ("R20.6", r20_6), ("R20.7", r20_7), ("R20.8", r20_8), ("R20.9", r20_9)]
